@@ -45,9 +45,13 @@ func (h *hist) viewOf(vc *validators.ValidatorsCache, addrs []common.Address) vv
 			v.Discr = append(v.Discr, n)
 		}
 		if vc.IsPool(a) {
-			sub, nonce := vc.FindSubIdentity(a, 0)
-			sub2, _ := vc.FindSubIdentity(a, 1)
-			v.Pools = append(v.Pools, []string{n, fmt.Sprint(vc.PoolSize(a)), h.w.Name(sub), fmt.Sprint(nonce), h.w.Name(sub2)})
+			// the order of the pool's members as block rewards walk it (sub-identity for every delegation nonce)
+			row := []string{n, fmt.Sprint(vc.PoolSize(a))}
+			for i := 0; i <= vc.PoolSize(a) && i < 12; i++ {
+				sub, nonce := vc.FindSubIdentity(a, uint32(i))
+				row = append(row, fmt.Sprintf("%s/%d", h.w.Name(sub), nonce))
+			}
+			v.Pools = append(v.Pools, row)
 		}
 		if d := vc.Delegator(a); d != (common.Address{}) {
 			v.Deleg = append(v.Deleg, []string{n, h.w.Name(d)})
